@@ -464,7 +464,7 @@ fn main() {
     };
 
     // Actualiza metadato CTE_AREAREF al valor seleccionado
-    components.set_meta("CTE_AREAREF", &format!("{:.2}", arearef));
+    components.set_meta("CTE_AREAREF", &format!("{}", arearef));
 
     println!("Área de referencia ({}) [m2]: {:.2}", orig_arearef, arearef);
 
@@ -488,7 +488,7 @@ fn main() {
     };
 
     // Actualiza metadato CTE_KEXP al valor seleccionado
-    components.set_meta("CTE_KEXP", &format!("{:.1}", kexp));
+    components.set_meta("CTE_KEXP", &format!("{}", kexp));
 
     println!("Factor de exportación ({}) [-]: {:.1}", orig_kexp, kexp);
 
